@@ -43,6 +43,8 @@ type vocab struct {
 
 	// leaves / conditions of the batch's rules by field selector: generic
 	// events aim at them too, so that every event is relevant to many rules
+	longText  bool     // concurrent clause: many long (mostly ASCII-padded) texts, so that a check takes longer
+	ciBias    bool     // concurrent clause: most field ops are case-insensitive
 	tsFormat  string   // the format most ts rules of the batch use
 	family    []string // per path: the kind of data the field usually carries (text, ts, arr, int)
 	targets   map[string][]*rule
@@ -118,6 +120,10 @@ func mutate(rng *rand.Rand, s string) string {
 		}
 	}
 	return s
+}
+
+func longPad(rng *rand.Rand) string {
+	return strings.Repeat(pick(rng, []string{"-", "x", "Zq", "pad ", "0"}), 30+rng.Intn(120))
 }
 
 func genVocab(rng *rand.Rand) *vocab {
@@ -228,6 +234,9 @@ func genLeaf(rng *rand.Rand, voc *vocab, allowNow bool) *rule {
 		ops := []string{"equal", "equal", "contains", "contains", "contains_any", "prefix", "prefix", "prefix", "suffix", "suffix", "suffix", "regex", "regex"}
 		r.op = pick(rng, ops)
 		r.cs = pick(rng, []int{0, 0, 1, 2, 2})
+		if voc.ciBias && rng.Intn(100) < 60 {
+			r.cs = 2
+		}
 		switch r.op {
 		case "contains_any":
 			w := pick(rng, voc.strs)
@@ -399,6 +408,8 @@ func genString(rng *rand.Rand, voc *vocab) *val {
 	if rng.Intn(25) == 0 {
 		// long text (beyond small-buffer sizes) that still starts/ends like the word
 		w = w + strings.Repeat(pick(rng, []string{"-", "x", "\u00e9", w}), 20+rng.Intn(80)) + w
+	} else if voc.longText && rng.Intn(100) < 40 {
+		w = w + longPad(rng) + w
 	}
 	v := vStr(w)
 	if rng.Intn(6) == 0 {
@@ -490,6 +501,16 @@ func targetValue(rng *rand.Rand, voc *vocab, l *rule, now time.Time) *val {
 		w = mutate(rng, w)
 		if rng.Intn(3) == 0 {
 			w = mutate(rng, w)
+		}
+		if voc.longText && rng.Intn(100) < 40 {
+			switch l.op {
+			case "contains":
+				w = longPad(rng) + w + longPad(rng)
+			case "prefix":
+				w += longPad(rng)
+			case "suffix":
+				w = longPad(rng) + w
+			}
 		}
 		v := vStr(w)
 		if rng.Intn(6) == 0 {
